@@ -51,6 +51,10 @@ Shape(i, s, o1, o2) ==
     [] i = 25 -> [rw |-> Di(This, CU(o1)), restr |-> <<Ty("grp"), Us("doc", o1)>>]             \* a base edge into the subtracted relation
     [] i = 26 -> [rw |-> Un(<<This, TTU(o1, "p"), CU(o1)>>), restr |-> <<Ty("user")>>]          \* TTU and rewrite edge to one relation
     [] i = 27 -> [rw |-> Un(<<CU(o1), This>>), restr |-> <<Us("doc", s), Us("doc", o1)>>]       \* nested tuple cycles
+    [] i = 28 -> [rw |-> In(<<TTU(o1, "p"), TTU("a", "p")>>), restr |-> <<>>]                   \* two operands over one tupleset
+    [] i = 29 -> [rw |-> Di(TTU(o1, "p"), TTU("a", "p")), restr |-> <<>>]
+    [] i = 30 -> [rw |-> In(<<Un(<<CU(o1), In(<<CU(o2), This>>)>>), Un(<<CU(o2), In(<<CU(o1), This>>)>>)>>),  \* three operators deep:
+                  restr |-> <<Ty("user")>>]                                                     \* same kind, same depth, same position
     [] i = 23 -> [rw |-> Un(<<TTU("a", "q"), This>>), restr |-> <<TyC("user", "c"), Ty("user"), Wi("user")>>]
 
 FreeNames == IF NFree = 2 THEN <<"x", "y">> ELSE <<"x", "y", "z">>
@@ -75,4 +79,25 @@ Pow(b, e) == IF e = 0 THEN 1 ELSE b * Pow(b, e - 1)
 ChoiceNo(i) == [j \in 1..NFree |-> IF j = 1 THEN MenuSeq[((i - 1) % K) + 1]
                                     ELSE Menu2Seq[((((i - 1) \div K) \div Pow(K2, j - 2)) % K2) + 1]]
 MCInputs == [i \in 1..(K * Pow(K2, NFree - 1)) |-> [id |-> "u" \o Digits(ChoiceNo(i), 1), m |-> ModelOf(ChoiceNo(i))]]
+
+(***************************************************************************)
+(* A second frame: seven user types; doc#x lists k public restrictions,    *)
+(* doc#p and doc#q both continue x's list (q directly or through p) with   *)
+(* one more public type each.  Lists of 3..7 entries merged into several   *)
+(* parents: the property speaks of sets, the code stores lists, and which  *)
+(* parent a list was handed to first depends on the root order.            *)
+(***************************************************************************)
+PubTypes == <<"t1", "t2", "t3", "t4", "t5", "t6", "t7">>
+PubModel(k, i, j, chain) ==
+  [types |-> <<[name |-> "doc", rels |-> <<
+       [name |-> "p", rw |-> This, restr |-> <<Us("doc", "x"), Wi(PubTypes[i])>>],
+       [name |-> "q", rw |-> This, restr |-> <<Us("doc", IF chain = 1 THEN "p" ELSE "x"), Wi(PubTypes[j])>>],
+       [name |-> "x", rw |-> This, restr |-> [n \in 1..k |-> Wi(PubTypes[n])]]>>]>>
+     \o [n \in 1..7 |-> [name |-> PubTypes[n], rels |-> <<>>]]]
+PubInputs == [n \in 1..(5 * 7 * 7 * 2) |->
+   LET k == ((n - 1) % 5) + 1
+       i == (((n - 1) \div 5) % 7) + 1
+       j == (((n - 1) \div 35) % 7) + 1
+       c == ((n - 1) \div 245) % 2
+   IN [id |-> "pub" \o ToString(k) \o "." \o ToString(i) \o "." \o ToString(j) \o "." \o ToString(c), m |-> PubModel(k, i, j, c)]]
 =============================================================================
